@@ -267,6 +267,15 @@ def check_pose(fx, R):
     ctx = {'this': ('this',), 'fn': f, 'depth': 0}
     st0 = sym.State()
     st0.locals[f['params'][1]['id']] = args[1]
+    # G6 (definedness): every denominator met while the Jacobian is assembled is recorded, and evaluated below on exact quarter-turn configurations
+    denominators = []
+    _arith = rd.arith
+
+    def recording_arith(op, a, b, e):
+        if op == '/' and isinstance(b, sp.Basic) and not isinstance(b, sp.MatrixBase) and b.free_symbols:
+            denominators.append((b, e.get('loc'), pp(e)))
+        return _arith(op, a, b, e)
+    rd.arith = recording_arith
     try:
         states = [st0]
         for s in top[:last + 1]:
@@ -321,6 +330,7 @@ def check_pose(fx, R):
     res = states[0].ret
     A, t, P, D = H.A, H.t, H.P, H.D
     M = A * P
+    check_definedness(fx, R, f, A, P, denominators)
     # ---- the library's own pose map ---------------------------------------------------------------
     pos = res.get('position')
     okp = isinstance(pos, sp.MatrixBase) and (sp.Matrix(pos) - (A * p + t)).expand() == sp.zeros(3, 1)
@@ -377,6 +387,45 @@ def check_pose(fx, R):
             else:
                 why = diagnose(got, true[i], A, P, D, ax, i)
                 R.violated('G3', 'operator*:J:%s-row' % names[i], 'J(%d,%d) is not d %s\'/d angle around %s of the library\'s own map: %s' % (3 + i, 3 + k, names[i], ax, why), loc, 'E-ALG')
+
+
+def check_definedness(fx, R, f, A, P, denominators):
+    """G6: the Jacobian must be DEFINED wherever the pose map is differentiable.  Rotations written as literal / permutation matrices (sensor mounting, change of frame convention) have exact zeros; attitudes a
+    quarter turn in roll or yaw are as far from gimbal lock (pitch +-90 deg) as can be.  Every recorded denominator is evaluated, exactly, on such configurations (transform rotation A, pose rotation P)."""
+    I3 = sp.eye(3)
+    Rz90 = sp.Matrix([[0, -1, 0], [1, 0, 0], [0, 0, 1]])
+    Rx90 = sp.Matrix([[1, 0, 0], [0, 0, -1], [0, 1, 0]])
+    OPT = sp.Matrix([[0, 0, 1], [-1, 0, 0], [0, -1, 0]])          # optical frame -> body frame (a proper rotation, pitch 0)
+    configs = [('a transform that is an exact quarter turn about Z applied to a level pose', Rz90, I3), ('the identity transform applied to a pose whose yaw is an exact quarter turn', I3, Rz90),
+               ('a transform that is an exact quarter turn about X applied to a level pose (transformed roll 90 deg, pitch 0)', Rx90, I3), ('the optical-frame to body-frame permutation applied to a level pose', OPT, I3),
+               ('a half turn about Z', Rz90 * Rz90, I3)]
+    loc = fx.rel(f['loc'])
+    if not denominators:
+        R.holds('G6', 'operator*:jacobian-defined', 'no division by a quantity of the inputs while the Jacobian is assembled', loc, 'E-ALG')
+        return
+    bad, unknown = None, 0
+    for (den, dloc, text) in denominators:
+        for (what, Av, Pv) in configs:
+            sub = {A[i, j]: Av[i, j] for i in range(3) for j in range(3)}
+            sub.update({P[i, j]: Pv[i, j] for i in range(3) for j in range(3)})
+            try:
+                v = den.subs(sub)
+            except Exception:
+                unknown += 1
+                continue
+            if v.free_symbols:
+                unknown += 1
+                continue
+            if v == 0 or v is sp.nan or v is sp.zoo or v.has(sp.nan, sp.zoo):
+                bad = bad or (text, dloc, what, v)
+    if bad:
+        R.violated('G6', 'operator*:jacobian-defined', 'for %s (a proper rotation with exact zero entries, far from gimbal lock) the denominator of `%s` is %s: the quotient is a division by zero / 0*inf, rows of the '
+                   'Jacobian become NaN and the reported covariance J C J^T is NaN - neither symmetric nor positive semi-definite - while the transformed pose itself is fine and the derivative of the pose map exists '
+                   'there (a form such as y/(x^2+y^2) is defined wherever (x, y) != (0, 0))' % (bad[2], bad[0][:140], bad[3]), fx.rel(bad[1]) if bad[1] else loc, 'E-ALG')
+    elif unknown == len(denominators) * len(configs):
+        R.undecided('G6', 'operator*:jacobian-defined', 'no denominator could be evaluated on the quarter-turn configurations')
+    else:
+        R.holds('G6', 'operator*:jacobian-defined', '%d denominators, none vanishes on %d exact quarter-turn / permutation configurations' % (len(denominators), len(configs)), loc, 'E-ALG')
 
 
 def same_fn(a, b):
